@@ -164,6 +164,15 @@ def check_one(sc, sp, f, last_req=None, f2=None):
                                   "detail": {"fault": f, "survivor": o, "finalize_calls": fin}})
             else:
                 stops = sum(1 for h in hist if h[0] == "stop" and h[1] == o)
+                node = r.run.nodes.get(o)
+                if stops == 0 and fin == 1 and node is not None and node.t_mosaik is not None \
+                        and node.t_mosaik.stop_frames_written == 1 and node.t_node.dead_writes >= 1:
+                    # mosaik sent 'stop' once and the simulator's finalize() ran once, but the frame
+                    # stayed unread: the survivor was still answering requests that were in flight
+                    # when mosaik closed the connection, and its connection broke under those
+                    # replies (EPIPE) before it got to the stop frame.  Stopped exactly once.
+                    r.run.probe("stop_unread_connection_broke_under_replies")
+                    continue
                 if stops != 1:
                     viols.append({"kind": "survivor_not_stopped_once",
                                   "features": dict(feats, survivor="remote", count=min(stops, 2),
@@ -260,6 +269,9 @@ def run_case(case, prop) -> Dict[str, Any]:
             st["post_mortem_drain_used"] = st.get("post_mortem_drain_used", 0) + 1
         if r.stats["probes"].get("write_to_dead_peer"):
             st["write_to_dead_peer"] = st.get("write_to_dead_peer", 0) + 1
+        if r.run.probes.get("stop_unread_connection_broke_under_replies"):
+            st["stop_unread_connection_broke_under_replies"] = \
+                st.get("stop_unread_connection_broke_under_replies", 0) + 1
         if any(h[0] == "finalize" and i > next((j for j, x in enumerate(r.hist) if x[0] == "run_returned"), 0)
                for i, h in enumerate(r.hist)):
             st["finalize_after_run_returned"] = st.get("finalize_after_run_returned", 0) + 1
